@@ -144,7 +144,8 @@ Definition handle_discovery (sid_live : N) (d tail : bytes) : res rows :=
       else Ok [[count]]
   end.
 
-(* ---- server.go handleSession and the per-protocol handlers it calls (no RADIUS client, no
+(* ---- server.go handleSession and the per-protocol handlers it calls; the frame comes from the
+   MAC that owns the session; [authed] = the session passed PAP before (no RADIUS client, no
    address pool, no DNS configured: the harness' configuration) *)
 Definition login_ok : bytes := [8; 76; 111; 103; 105; 110; 32; 79; 75].   (* len, "Login OK" *)
 
@@ -180,7 +181,8 @@ Definition srv_pap (count : N) (p : bytes) : res rows :=
   _ <- sub0 p (6 + ul) (6 + ul + pl) ;;
   Ok [[49187; 2; i] ++ login_ok; [count]].
 
-Definition srv_ipcp (count : N) (p : bytes) : res rows :=
+Definition srv_ipcp (authed count : N) (p : bytes) : res rows :=
+  if authed =? 0 then Ok [[count]] else   (* NCP packets before authentication are discarded *)
   match parse_lcp_packet p with
   | Err => Ok [[count]]
   | Panic => Panic
@@ -196,7 +198,7 @@ Definition srv_ipcp (count : N) (p : bytes) : res rows :=
       else Ok [[count]]
   end.
 
-Definition handle_session (sid_live : N) (d tail : bytes) : res rows :=
+Definition handle_session (sid_live authed : N) (d tail : bytes) : res rows :=
   let count := if sid_live =? 0 then 0 else 1 in
   if lenN d <? 8 then Ok [[count]] else
   h <- parse_header d ;;
@@ -207,7 +209,7 @@ Definition handle_session (sid_live : N) (d tail : bytes) : res rows :=
   p <- sub d tail 8 (6 + ln) ;;
   if proto =? 49185 then srv_lcp count p
   else if proto =? 49187 then srv_pap count p
-  else if proto =? 32801 then srv_ipcp count p
+  else if proto =? 32801 then srv_ipcp authed count p
   else Ok [[count]].
 
 (* ---- session.go CreateSession: [used] = live ids, [count] = len(m.sessions), [next] = m.nextID *)
